@@ -430,7 +430,14 @@ const TABLES: [&str; 3] = [
 ];
 
 /// (model, invocable, input context template; `$X` is replaced by the input variant of the operation)
-const MODEL_CALLS: [(&str, &str, &str); 29] = [
+const MODEL_CALLS: [(&str, &str, &str); 35] = [
+  // an invocation whose callee depends on the input; calls that leave an input or a parameter out
+  ("gen", "inv2", "{x: $X}"),
+  ("gen", "label", "{n: $X}"),
+  ("gen", "label", "{t: \"w$X\"}"),
+  ("gen", "c3", "{x: $X}"),
+  ("gen", "tu2", "{s: \"u$X\"}"),
+  ("gen", "svc", "{x: $X}"),
   ("gen", "rx2", "{x: $X, s: \"ab$X_4\"}"),
   // UNIQUE and ANY tables whose rules overlap for some inputs (null there, a value elsewhere)
   ("gen", "tu2", "{x: $X, s: \"u$X\"}"),
